@@ -57,6 +57,14 @@ impl Op {
 pub struct Program {
     pub nodes: usize,
     pub ops: Vec<(usize, Op)>,
+    /// conflict strategy of the working database: none or newer (a stale versioned write is then
+    /// accepted, resolved and replicated -- still one copy per secondary)
+    #[serde(default = "default_strategy")]
+    pub strategy: String,
+}
+
+fn default_strategy() -> String {
+    "none".to_string()
 }
 
 fn gen(rng: &mut Rng) -> Program {
@@ -91,7 +99,8 @@ fn gen(rng: &mut Rng) -> Program {
             },
         ));
     }
-    Program { nodes, ops }
+    let strategy = if rng.chance(1, 3) { "newer" } else { "none" }.to_string();
+    Program { nodes, ops, strategy }
 }
 
 struct Outcome {
@@ -169,7 +178,7 @@ fn execute(prog: Program) -> Outcome {
         None => return out,
     };
     let mut padmin = Session::admin(&dbs[0]);
-    padmin.exec("create-db d tok none");
+    padmin.exec(&format!("create-db d tok {}", prog.strategy));
     padmin.exec("create-db a tok arbiter");
     if !w.settle(200, 5_000) {
         out.setup = Err("setup_unstable".into());
